@@ -52,6 +52,7 @@ type C05Case struct {
 	Deep *C05DeepQ `json:"deep_object,omitempty"`
 
 	viaForm bool // harness/c05transport.go
+	noise   bool // harness/c05transport.go: the query also carries a key of no parameter
 }
 
 type C05Obs struct {
@@ -216,6 +217,9 @@ func (c *C05Case) request() (*http.Request, map[string]string) {
 		if len(kv.Vs) == 0 {
 			q[kv.K] = []string{}
 		}
+	}
+	if c.noise {
+		q.Add("zzother", "1")
 	}
 	req.URL.RawQuery = q.Encode()
 	for _, kv := range c.Frag.Header {
